@@ -108,10 +108,10 @@ ASSUMPTIONS = [
     "excluded:D12, excluded:D12b)",
 ]
 
-EXCLUDE_D12 = True
+EXCLUDE_D12 = False
 # D12b: dns.query._inbound_xfr raises FormError("missing TSIG") after the `with Inbound` block,
 # i.e. after the zone was committed, when the last message of a TSIG transfer is unsigned
-EXCLUDE_D12B = True
+EXCLUDE_D12B = False
 
 QID = 0x1234
 T_SOA, T_A, T_NS, T_CNAME, T_RRSIG = 6, 1, 2, 5, 46
